@@ -1,6 +1,7 @@
 import SamVerif.Model.EnumLayout
 import SamVerif.Model.TailRec
 import SamVerif.Model.CpeSem
+import SamVerif.Model.TailStmt
 import Driver.Util
 /-! Line-protocol driver for property C01 (model side): protocols `layout`, `tailrec`, `cpe`.
 Each line carries, after `##`, the model-side description of the same input that the harness
@@ -291,6 +292,147 @@ def cpesemLine (rest : String) : String :=
     | none => "bad-model-line"
   | _ => "bad-model-line"
 
+/-! ### tailstmt: the rewrite over full statement lists, compared as program text -/
+abbrev PI := StateT (List String × List String) Option   -- (tokens, interned names)
+
+def tokI : PI String := fun (ts, tb) => match ts with
+  | [] => none
+  | t :: rest => some (t, (rest, tb))
+
+def peekI : PI (Option String) := fun (ts, tb) => some (ts.head?, (ts, tb))
+
+def numI : PI Nat := do
+  let t ← tokI
+  match t.toNat? with
+  | some n => pure n
+  | none => failure
+
+def repI {α} (n : Nat) (p : PI α) : PI (List α) :=
+  match n with
+  | 0 => pure []
+  | n + 1 => do let a ← p; let r ← repI n p; pure (a :: r)
+
+/-- `p<i>` is parameter `i`; every other name is interned as `1000 + index`. -/
+def internI (t : String) : PI Nat := fun (ts, tb) =>
+  if t.startsWith "p" && ((t.drop 1).toString.toNat?).isSome then
+    some (((t.drop 1).toString.toNat?).getD 0, (ts, tb))
+  else match tb.findIdx? (· == t) with
+    | some i => some (1000 + i, (ts, tb))
+    | none => some (1000 + tb.length, (ts, tb ++ [t]))
+
+open TailRec in
+def exprI : PI Expr := do
+  let t ← tokI
+  match t.toInt? with
+  | some n => pure (.lit n)
+  | none => do let x ← internI t; pure (.var x)
+
+open TailRec TailStmt in
+partial def blkI : PI Blk := do
+  let t ← peekI
+  match t with
+  | none => pure .done
+  | some "}" => pure .done
+  | some "ret" => pure .done
+  | some "bin" => do
+    let _ ← tokI
+    let x ← tokI; let x ← internI x
+    let o ← tokI
+    let e1 ← exprI
+    let e2 ← exprI
+    let k ← blkI
+    match opOf o with
+    | some o => pure (.bin x o e1 e2 k)
+    | none => failure
+  | some "call" => do
+    let _ ← tokI
+    let _ ← tokI           -- callee: always the function itself
+    let n ← numI
+    let as ← repI n exprI
+    let rc ← tokI
+    let rc ← if rc == "_" then pure none else do let x ← internI rc; pure (some x)
+    let k ← blkI
+    pure (.call as rc k)
+  | some "if" => do
+    let _ ← tokI
+    let c ← exprI
+    let _ ← tokI
+    let s1 ← blkI
+    let _ ← tokI
+    let _ ← tokI
+    let s2 ← blkI
+    let _ ← tokI
+    let n ← numI
+    let fs ← repI n (do
+      let x ← tokI; let x ← internI x
+      let e1 ← exprI
+      let e2 ← exprI
+      pure (x, e1, e2))
+    let k ← blkI
+    pure (.ifElse c s1 s2 fs k)
+  | _ => failure
+
+def opName : Opt.Op → String
+  | .mul => "mul" | .div => "div" | .mod => "mod" | .add => "add" | .sub => "sub" | .land => "and"
+  | .lor => "or" | .shl => "shl" | .shr => "shr" | .xor => "xor" | .lt => "lt" | .le => "le"
+  | .gt => "gt" | .ge => "ge" | .eq => "eq" | .ne => "ne"
+
+def nameStr (tb : List String) (x : Nat) : String :=
+  if x ≥ TailStmt.trpBase then s!"_tailrec_param_p{x - TailStmt.trpBase}"
+  else if x ≥ TailStmt.tempBase then s!"_t{x - TailStmt.tempBase}"
+  else if x ≥ 1000 then tb.getD (x - 1000) "?"
+  else s!"p{x}"
+
+open TailRec in
+def exprStr (tb : List String) : Expr → String
+  | .lit n => toString n
+  | .var x => nameStr tb x
+
+open TailRec TailStmt in
+def blkToks (tb : List String) : Blk → List String
+  | .done => []
+  | .bin x op e1 e2 k => s!"bin {nameStr tb x} {opName op} {exprStr tb e1} {exprStr tb e2}" :: blkToks tb k
+  | .cast x e k => s!"cast {nameStr tb x} {exprStr tb e}" :: blkToks tb k
+  | .call as rc k =>
+    (s!"call f0 {as.length}" ++ String.join (as.map fun a => " " ++ exprStr tb a) ++ " " ++
+      (match rc with | some r => nameStr tb r | none => "_")) :: blkToks tb k
+  | .ifElse c s1 s2 fs k =>
+    [s!"if {exprStr tb c}", "{"] ++ blkToks tb s1 ++ ["}", "{"] ++ blkToks tb s2 ++ ["}"] ++
+      [toString fs.length ++ String.join (fs.map fun f =>
+        s!" {nameStr tb f.1} {exprStr tb f.2.1} {exprStr tb f.2.2}")] ++ blkToks tb k
+  | .sif c inv body k =>
+    [s!"sif {exprStr tb c} {if inv then 1 else 0}", "{"] ++ blkToks tb body ++ ["}"] ++ blkToks tb k
+  | .brk e => [s!"brk {exprStr tb e}"]
+
+open TailRec TailStmt in
+def tailstmtLine (rest : String) : String :=
+  match (rest.splitOn "##").head? with
+  | some h =>
+    match h.splitOn "|" with
+    | [_, _, prog] =>
+      match (do
+          let _ ← tokI          -- fn
+          let _ ← tokI          -- f0
+          let n ← numI
+          let b ← blkI
+          let _ ← tokI          -- ret
+          let r ← exprI
+          pure (n, b, r) : PI (Nat × Blk × Expr)).run (words prog, []) with
+      | some ((n, b, r), (_, tb)) =>
+        let f : TailStmt.Fn := { params := List.range n, body := b, ret := r }
+        match rewriteFn f with
+        | none => "norewrite"
+        | some lf =>
+          let toks := ["fn f0 ["] ++ lf.params.map (nameStr tb) ++ ["]"] ++
+            [s!"while {lf.vars.length}" ++ String.join (lf.vars.map fun v =>
+              s!" {nameStr tb v.1} {exprStr tb v.2.1} {exprStr tb v.2.2}"), "{"] ++
+            blkToks tb lf.body ++ ["}", (match lf.breakCollector with | some x => nameStr tb x | none => "_")] ++
+            [s!"ret {exprStr tb lf.ret} end"]
+          "prog " ++ " ".intercalate toks
+      | none => "bad-model-line"
+    | _ => "bad-model-line"
+  | none => "bad-model-line"
+
 def step (_ : Unit) (line : String) : Unit × String :=
   let line := line.trimAscii.toString
   let (k, rest) := match line.splitOn " " with
@@ -300,6 +442,7 @@ def step (_ : Unit) (line : String) : Unit × String :=
        else if k == "tailrec" then tailrecLine rest
        else if k == "cpe" then cpeLine rest
        else if k == "cpesem" then cpesemLine rest
+       else if k == "tailstmt" then tailstmtLine rest
        else "bad-line")
 
 end Driver.C01
